@@ -19,6 +19,144 @@ pub mod host {
     include!("sliced/api.rs");
     include!("sliced/sub.rs");
 
+    /// server side: the reconciliation block of catch_up_sub, hosted with the outcome of every
+    /// race as an explicit input (what the snapshot read returned, what is in the live queue, what
+    /// the matcher says it last sent, what each further catch-up read returns)
+    pub mod server {
+        use super::ChangeId;
+        use core::cell::Cell;
+        use std::time::Duration;
+        use venv::{debug, info, warn, ArmOutcome};
+
+        #[derive(Clone, Copy, Debug)]
+        pub struct Bytes;
+        pub struct BytesMut;
+        #[derive(Clone, Copy, Debug, PartialEq)]
+        pub enum QueryEventMeta {
+            Change(ChangeId),
+            Error,
+        }
+        /// the subscriber's channel: checks continuity online instead of logging
+        pub struct EvtTx {
+            pub next_expected: Cell<u64>,
+            pub broken: Cell<bool>,
+            pub errors: Cell<usize>,
+            pub changes: Cell<usize>,
+            pub closed: bool,
+        }
+        impl EvtTx {
+            pub async fn send(&self, ev: (Bytes, QueryEventMeta)) -> Result<(), ()> {
+                if self.closed {
+                    return Err(());
+                }
+                match ev.1 {
+                    QueryEventMeta::Change(id) => {
+                        if self.errors.get() > 0 || id.0 != self.next_expected.get() {
+                            self.broken.set(true);
+                        }
+                        self.next_expected.set(id.0.wrapping_add(1));
+                        self.changes.set(self.changes.get() + 1);
+                    }
+                    QueryEventMeta::Error => self.errors.set(self.errors.get() + 1),
+                }
+                Ok(())
+            }
+        }
+        pub fn error_to_query_event_bytes_with_meta<E>(_buf: &mut BytesMut, _e: E) -> (Bytes, QueryEventMeta) {
+            (Bytes, QueryEventMeta::Error)
+        }
+        #[derive(Debug)]
+        pub enum CatchUpError {
+            Send(()),
+            Other,
+        }
+        pub enum TryRecvError {
+            Empty,
+            Disconnected,
+        }
+        /// the live queue filled by the buffering task: consecutive ids, possibly disconnected
+        pub struct QueueRx {
+            pub first: u64,
+            pub len: usize,
+            pub taken: usize,
+            pub disconnected: bool,
+        }
+        impl QueueRx {
+            pub fn try_recv(&mut self) -> Result<(Bytes, ChangeId), TryRecvError> {
+                if self.taken < self.len {
+                    let id = self.first + self.taken as u64;
+                    self.taken += 1;
+                    Ok((Bytes, ChangeId(id)))
+                } else if self.disconnected {
+                    Err(TryRecvError::Disconnected)
+                } else {
+                    Err(TryRecvError::Empty)
+                }
+            }
+            pub async fn recv(&mut self) -> Option<(Bytes, ChangeId)> {
+                if self.taken < self.len {
+                    let id = self.first + self.taken as u64;
+                    self.taken += 1;
+                    Some((Bytes, ChangeId(id)))
+                } else {
+                    None
+                }
+            }
+        }
+        pub struct MatcherHandle {
+            pub last_sent: ChangeId,
+            /// outcomes of the successive catch-up reads: how far each one gets beyond `from`
+            pub reads: [u8; 5],
+            pub read_fails: [u8; 5], // 0 ok, 1 send error, 2 other error
+            pub n_reads: Cell<usize>,
+        }
+        impl MatcherHandle {
+            pub fn id(&self) -> u8 {
+                0
+            }
+            pub fn last_change_id_sent(&self) -> ChangeId {
+                self.last_sent
+            }
+        }
+        /// changes_since(from): streams the changes (from, y] to the subscriber and returns y
+        pub async fn catch_up_sub_from(matcher: &MatcherHandle, from: ChangeId, evt_tx: &EvtTx) -> Result<ChangeId, CatchUpError> {
+            let k = matcher.n_reads.get();
+            assert!(k < 5, "more catch-up reads than attempts");
+            matcher.n_reads.set(k + 1);
+            match matcher.read_fails[k] {
+                1 => return Err(CatchUpError::Send(())),
+                2 => return Err(CatchUpError::Other),
+                _ => {}
+            }
+            let mut id = from.0;
+            let mut i = 0;
+            while i < matcher.reads[k] {
+                id += 1;
+                if evt_tx.send((Bytes, QueryEventMeta::Change(ChangeId(id)))).await.is_err() {
+                    return Err(CatchUpError::Send(()));
+                }
+                i += 1;
+            }
+            Ok(ChangeId(id))
+        }
+        /// tokio::sync::broadcast::error::RecvError
+        #[derive(Debug, Clone, Copy, PartialEq)]
+        pub enum RecvError {
+            Closed,
+            Lagged(u64),
+        }
+        pub struct CancellationToken;
+        impl CancellationToken {
+            pub fn cancel(&self) {}
+        }
+        pub mod tokio {
+            pub mod time {
+                pub async fn sleep(_d: std::time::Duration) {}
+            }
+        }
+        include!("sliced/pubsub.rs");
+    }
+
     #[cfg(kani)]
     mod proofs {
         use super::*;
